@@ -313,6 +313,50 @@ func runC02() {
 		}
 	}
 
+	// B1b. long targets (pre-signed / tokenised URLs) that differ only far into the path, the query or the host:
+	// every byte of every component must reach the key, however long the target is
+	{
+		nl := 60
+		if thorough() {
+			nl = 600
+		}
+		for i := 0; i < nl; i++ {
+			total := emit.Pick(r, []int{120, 300, 511, 512, 513, 700, 1500, 4000})
+			mk := func(seed byte, n int) string {
+				b := make([]byte, n)
+				for j := range b {
+					b[j] = "abcdefghijklmnopqrstuvwxyz0123456789-_"[(int(seed)+j*7+j/13)%38]
+				}
+				return string(b)
+			}
+			long := mk(byte(i), total)
+			pos := total - 1 - r.Intn(1+total/8) // the difference sits in the last eighth
+			if r.Chance(30) {
+				pos = r.Intn(total)
+			}
+			other := long[:pos] + string("ABCDEFG"[r.Intn(7)]) + long[pos+1:]
+			var ta, tb, ha, hb string
+			ha, hb = "example.com", "example.com"
+			switch r.Intn(4) {
+			case 0:
+				ta, tb = "/blob/"+long+"/part", "/blob/"+other+"/part"
+			case 1:
+				ta, tb = "/download?policy="+long+"&f=1", "/download?policy="+other+"&f=1"
+			case 2:
+				ta, tb = "/"+long, "/"+other
+			default:
+				ta, tb = "/p?"+long, "/p?"+other
+			}
+			a, b := c02Parse("GET", ta, ha, false), c02Parse("GET", tb, hb, false)
+			if a == nil || b == nil {
+				meta.Count("rejected", "long-target")
+				continue
+			}
+			addPair("long-target", a, b)
+			addPair("long-target-same", a, c02Parse("GET", ta, strings.ToUpper(ha), false))
+		}
+	}
+
 	// B2. structured requests with adversarial mutations
 	n := 2500
 	if thorough() {
